@@ -66,6 +66,8 @@ def fired_rules(pid, repo, configs, ctx_cache):
         for v in r.violations:
             if (pid, v.key) not in known:
                 rules.add(v.rule)
+    if machinery and os.environ.get('VF_SHOW_MACHINERY') == '1':
+        rules.add('MACHINERY(%s)' % machinery[0].split(']', 1)[-1].strip()[:60])
     return rules, machinery
 
 
@@ -144,6 +146,7 @@ def record(jobs=6):
 def benign(jobs=6, only=None):
     """behaviour-preserving edits (seeded/benign/*.diff): no check may report a violation on any of them"""
     from concurrent.futures import ProcessPoolExecutor
+    os.environ['VF_SHOW_MACHINERY'] = '1'
     files = sorted(f for f in os.listdir(os.path.join(SEEDED, 'benign')) if f.endswith('.diff'))
     if only:
         files = [f for f in files if any(o in f for o in only)]
